@@ -389,6 +389,9 @@ func canonDoc(d *jv) string {
 	if d == nil {
 		return "ABSENT"
 	}
+	if d.k == jNull {
+		return "{}" // the document "null" is an empty configuration
+	}
 	if d.k != jObj {
 		return "NOTOBJECT:" + common.Hex(d.canon())
 	}
